@@ -304,8 +304,12 @@ def run_sim(cfg, max_days=None, fail_gd_on=None, keep=False, hook=None):
         tsc = int(clock_struct.time_step_counter); season = int(clock_struct.season_counter)
         d = {"args": {}, "res": {}, "order": [], "tsc": tsc, "season": season}
         # ---- inputs
+        # the season list as the clock structure holds it NOW (Clock.v takes it as a constant of the run: a step or a
+        # season reset that rewrites planting / harvest dates shows up as a changed list here)
+        plant_now = [int((pd.Timestamp(d) - start).days) for d in clock_struct.planting_dates]
+        harv_now = [int((pd.Timestamp(d) - start).days) for d in clock_struct.harvest_dates]
         clock = [str(tsc), str(season), eZ(ic.dap), eB(ic.crop_mature), eB(ic.harvest_flag),
-                 str(len(plant))] + [str(x) for x in plant] + [str(len(harv))] + [str(x) for x in harv]
+                 str(len(plant_now))] + [str(x) for x in plant_now] + [str(len(harv_now))] + [str(x) for x in harv_now]
         clock0 = list(clock)
         clock += [eB(clock_struct.sim_off_season), eZ(clock_struct.evap_time_steps)]
         wt = int(param_struct.water_table)
